@@ -24,7 +24,7 @@ use std::time::Duration;
 type Enr = GEnr<CombinedKey>;
 pub const TICK_MS: u64 = 1000; // one model tick of handler (tokio) time
 pub const REQ_TIMEOUT_TICKS: u64 = 10;
-pub const SESS_UNIT_MS: u64 = 1000; // one unit of session age (std::time, aged by hook)
+pub const SESS_UNIT_MS: u64 = 700; // one unit of session age (std::time, aged by hook)
 
 #[derive(Default)]
 struct Interner {
@@ -118,14 +118,26 @@ fn clone_key(k: &CombinedKey) -> CombinedKey {
 fn mk_enr(key: &CombinedKey, addr: Option<SocketAddr>, seq: u64) -> Enr {
     let mut b = Enr::builder();
     b.seq(seq);
-    if let Some(SocketAddr::V4(a)) = addr {
-        b.ip4(*a.ip());
-        b.udp4(a.port());
+    match addr {
+        Some(SocketAddr::V4(a)) => {
+            b.ip4(*a.ip());
+            b.udp4(a.port());
+        }
+        Some(SocketAddr::V6(a)) => {
+            b.ip6(*a.ip());
+            b.udp6(a.port());
+        }
+        None => {}
     }
     b.build(key).unwrap()
 }
+/// The second party (p2) lives on IPv6, the others on IPv4: the handler's record-against-source check has one arm per family.
 fn sock(d: u8, port: u16) -> SocketAddr {
-    SocketAddr::new(Ipv4Addr::new(10, 0, 0, d).into(), port)
+    if d == 2 {
+        SocketAddr::new(std::net::Ipv6Addr::new(0x2001, 0xdb8, 0, 0, 0, 0, 0, d as u16).into(), port)
+    } else {
+        SocketAddr::new(Ipv4Addr::new(10, 0, 0, d).into(), port)
+    }
 }
 
 fn rid_bytes(name: &str) -> Vec<u8> {
@@ -498,7 +510,7 @@ impl World {
                 let p = &self.parties[pi];
                 let contact = if with_enr {
                     let seq = inp.get("seq").and_then(|x| x.as_u64()).unwrap_or(1);
-                    NodeContact::try_from_enr(p.enrs[&seq].clone(), IpMode::default()).ok().unwrap()
+                    NodeContact::try_from_enr(p.enrs[&seq].clone(), if addr.is_ipv6() { IpMode::Ip6 } else { IpMode::default() }).ok().unwrap()
                 } else {
                     NodeContact::new(p.enrs[&1].public_key(), addr, None)
                 };
